@@ -105,7 +105,7 @@ func c18Rules(tier string) []Rule {
 				}
 			}
 			f := w.Fn("@arg:" + gpp + `|^call lo\.Map\[\*corev1\.Pod, \*corev1\.Pod\]\(\(\*state/virtualpods\.Cache\)\.GetAll\(|1`)
-			if f == nil || len(w.Sites(f, regexp.MustCompile(`^return \(\*corev1\.Pod\)\.DeepCopy\(\$0\)$`), false)) == 0 {
+			if f == nil || len(w.SitesOr(f, regexp.MustCompile(`^return \(\*corev1\.Pod\)\.DeepCopy\(\$0\)$`), false, 1)) == 0 {
 				out = append(out, core.Bad(id, "WSET", "WSET:"+gpp+":virtual-pods", w.Pos(fn.Pos()), "virtual pods are not deep-copied before being scheduled"))
 			}
 			if len(out) == 0 {
